@@ -1,6 +1,168 @@
-(* C02 — Decoder is total, memory-safe, local and spec-faithful on arbitrary bytes. *)
+(* C02 — Decoder is total, memory-safe, local and spec-faithful on arbitrary bytes.
+
+   decode_go / detect_go (Codec/Dec.v) mirror Type.New().Decode / DetectPacket of
+   /repo/packet statement by statement (tie: checks/C02.py, go/cmd/codecdec);
+   ref_decode / extent (Codec/RefDecode.v) is the independent MQTT 3.1.1 reference.
+   The ownership clause is decided on the Go side of the tie (buffer scribbling). *)
 From Coq Require Import List NArith ZArith Bool.
 From Coq.Strings Require Import Byte.
 From GM Require Import Codec.Packet Codec.WF Codec.Dec Codec.RefDecode.
+From GM Require Import Codec.DecProofsBase Codec.DecProofsSafe Codec.DecProofsLocal
+     Codec.DecProofsSpec3 Codec.DecProofsFwd.
 Import ListNotations.
 Open Scope N_scope.
+
+(* ---- total and memory-safe, on ALL byte lists ---- *)
+Theorem C02_no_panic : forall t bs, decode_go t bs <> DPanic /\ detect_go bs <> DetPanic.
+Proof. intros t bs. split; [apply decode_no_panic | apply detect_no_panic]. Qed.
+Print Assumptions C02_no_panic.
+
+Theorem C02_consumed : forall t bs r n,
+  decode_go t bs = DOk r n \/ decode_go t bs = DErr n -> n <= N.of_nat (length bs).
+Proof. exact decode_consumed. Qed.
+Print Assumptions C02_consumed.
+
+(* ---- spec-faithful: accepts iff the reference accepts, same fields, same count ---- *)
+(* the full statement; false of the faithful model for CONNECT on unframed buffers (below) *)
+Definition C02_spec_equiv_full : Prop :=
+  forall t bs p n, decode_go t bs = DOk p n <-> ref_decode t bs = Some (p, n).
+
+(* every type but CONNECT on arbitrary buffers; CONNECT on buffers framed to the declared
+   extent, which is how the stream decoder (Decoder.Read) always calls Decode *)
+Theorem C02_spec_equiv : forall t bs p n,
+  t <> TConnect \/ extent bs = Some (N.of_nat (length bs)) ->
+  (decode_go t bs = DOk p n <-> ref_decode t bs = Some (p, n)).
+Proof.
+  intros t bs p n [H | H]; [apply spec_equiv; exact H | apply spec_equiv_framed; exact H].
+Qed.
+Print Assumptions C02_spec_equiv.
+
+Definition connect_short : bytes :=   (* CONNECT, remaining length 10, but a 12-byte body follows *)
+  [x10; x0a; x00; x04; x4d; x51; x54; x54; x04; x02; x00; x0a; x00; x00].
+
+Theorem C02_spec_equiv_connect_refuted :
+  exists bs p n, decode_go TConnect bs = DOk p n /\ ref_decode TConnect bs = None.
+Proof.
+  exists connect_short. eexists. eexists. split; vm_compute; reflexivity.
+Qed.
+Print Assumptions C02_spec_equiv_connect_refuted.
+
+(* ---- local: the result depends only on the packet's own header-declared extent ---- *)
+Definition C02_local_full : Prop :=
+  forall t bs tail n, extent bs = Some n -> n <= N.of_nat (length bs) ->
+    decode_go t (bs ++ tail) = decode_go t (firstn (N.to_nat n) bs).
+
+Theorem C02_local : forall t bs tail n,
+  t <> TConnect -> extent bs = Some n -> n <= N.of_nat (length bs) ->
+  decode_go t (bs ++ tail) = decode_go t (firstn (N.to_nat n) bs).      (* result and count *)
+Proof. exact decode_local. Qed.
+Print Assumptions C02_local.
+
+(* CONNECT reads on past its declared extent: open known finding KF-C02-connect-overread *)
+Theorem C02_local_connect_refuted :
+  exists bs tail n, extent bs = Some n /\ n <= N.of_nat (length bs) /\
+    decode_go TConnect (bs ++ tail) <> decode_go TConnect (firstn (N.to_nat n) bs).
+Proof.
+  exists (firstn 12 connect_short), [x00; x00], 12.
+  split; [vm_compute; reflexivity |]. split; [vm_compute; discriminate |].
+  vm_compute. discriminate.
+Qed.
+Print Assumptions C02_local_connect_refuted.
+
+(* what does hold for CONNECT: a packet that decodes when framed to its extent decodes to
+   the same packet and count whatever follows it *)
+Theorem C02_local_connect_partial : forall bs tail n p m,
+  extent bs = Some n -> n <= N.of_nat (length bs) ->
+  decode_go TConnect (firstn (N.to_nat n) bs) = DOk p m ->
+  decode_go TConnect (bs ++ tail) = DOk p m.
+Proof. exact connect_local_partial. Qed.
+Print Assumptions C02_local_connect_partial.
+
+(* ---- every admitted application message can be encoded again for forwarding ----
+   (WF.forwardable; the encoder side proves wf -> encodable) *)
+Theorem C02_forwardable : forall bs d m id n,
+  decode_go TPublish bs = DOk (Publish d m id) n -> forwardable m.
+Proof. exact publish_forwardable_thm. Qed.
+Print Assumptions C02_forwardable.
+
+Theorem C02_forwardable_will : forall bs c m n,
+  decode_go TConnect bs = DOk (Connect c) n -> c_will c = Some m -> forwardable m.
+Proof. exact will_forwardable_thm. Qed.
+Print Assumptions C02_forwardable_will.
+
+(* ---- DetectPacket: whenever the remaining length has at most 4 bytes the reported
+   length is the extent decodeHeader computes, and the type is the first nibble
+   (L7: it also answers for type nibbles 0/15 and longer varints, which Decode rejects) ---- *)
+Theorem C02_detect_agrees : forall bs l t n,
+  detect_go bs = Detected l t -> extent bs = Some n ->
+  l = Z.of_N n /\ exists b0 r, bs = b0 :: r /\ t = Byte.to_N b0 / 16.
+Proof. exact detect_agrees. Qed.
+Print Assumptions C02_detect_agrees.
+
+(* ---- non-vacuity ---- *)
+Definition bs_of (l : list N) : bytes :=
+  map (fun n => match Byte.of_N n with Some b => b | None => x00 end) l.
+
+Definition samples : list (ptype * bytes) :=
+  [ (TConnect, bs_of [16;33;0;4;77;81;84;84;4;238;0;10;0;2;105;100;0;1;119;0;2;1;2;0;4;117;115;101;114;0;4;112;97;115;115]);
+    (TConnect, bs_of [16;14;0;6;77;81;73;115;100;112;3;2;0;0;0;0]);
+    (TConnack, bs_of [32;2;1;5]);
+    (TPublish, bs_of [61;8;0;3;97;47;98;255;255;9]);
+    (TPublish, bs_of [48;3;0;1;97]);
+    (TPuback, bs_of [64;2;0;1]); (TPubrec, bs_of [80;2;1;0]); (TPubrel, bs_of [98;2;255;255]);
+    (TPubcomp, bs_of [112;2;0;7]);
+    (TSubscribe, bs_of [130;12;0;9;0;1;97;2;0;3;98;47;35;0]);
+    (TSuback, bs_of [144;5;0;9;0;1;128]);
+    (TUnsubscribe, bs_of [162;9;0;9;0;1;97;0;2;43;47]);
+    (TUnsuback, bs_of [176;2;0;9]);
+    (TPingreq, bs_of [192;0]); (TPingresp, bs_of [208;0]); (TDisconnect, bs_of [224;0]);
+    (TPingreq, bs_of [192;128;128;128;0]) ].       (* L3: non-minimal 4-byte remaining length *)
+
+(* every sample decodes, the reference agrees, the whole buffer is the extent, and
+   appending a tail changes nothing *)
+Example C02_nonvacuous :
+  forallb (fun tb : ptype * bytes =>
+    let (t, bs) := tb in
+    match decode_go t bs, ref_decode t bs, extent bs, decode_go t (bs ++ [xff; x30]) with
+    | DOk p n, Some (p', n'), Some e, DOk p'' n'' =>
+        packet_eqb p p' && (n =? n') && (n =? N.of_nat (length bs)) && (e =? n)
+        && packet_eqb p p'' && (n =? n'')
+    | _, _, _, _ => false
+    end) samples = true.
+Proof. vm_compute. reflexivity. Qed.
+
+Example C02_nonvacuous_types :
+  map (fun tb => type_code (fst tb)) samples = [1;1;2;3;3;4;5;6;7;8;9;10;11;12;13;14;12].
+Proof. reflexivity. Qed.
+
+(* a decoded publish and a decoded will, as the hypotheses of C02_forwardable require *)
+Example C02_nonvacuous_forwardable :
+  (exists d m id n, decode_go TPublish (bs_of [61;8;0;3;97;47;98;255;255;9]) = DOk (Publish d m id) n
+                    /\ m_qos m = 2) /\
+  (exists c m n, decode_go TConnect (snd (hd (TConnect, []) samples)) = DOk (Connect c) n /\ c_will c = Some m).
+Proof.
+  split.
+  - do 4 eexists. split; vm_compute; reflexivity.
+  - do 3 eexists. split; vm_compute; reflexivity.
+Qed.
+
+(* detection on the same samples: DetectPacket reports the extent *)
+Example C02_nonvacuous_detect :
+  forallb (fun tb : ptype * bytes =>
+    match detect_go (snd tb), extent (snd tb) with
+    | Detected l t, Some e => Z.eqb l (Z.of_N e) && (t =? type_code (fst tb))
+    | _, _ => false
+    end) samples = true.
+Proof. vm_compute. reflexivity. Qed.
+
+(* rejections: QoS 3, packet id 0, empty topic, reserved flags, wrong remaining length *)
+Example C02_rejects :
+  forallb (fun tb : ptype * bytes =>
+    match decode_go (fst tb) (snd tb), ref_decode (fst tb) (snd tb) with
+    | DErr _, None => true
+    | _, _ => false
+    end)
+    [ (TPublish, bs_of [54;3;0;1;97]); (TPublish, bs_of [50;5;0;1;97;0;0]); (TPublish, bs_of [48;2;0;0]);
+      (TPuback, bs_of [65;2;0;1]); (TConnack, bs_of [32;3;0;0;0]); (TSubscribe, bs_of [130;2;0;1]);
+      (TConnect, firstn 12 connect_short) ] = true.
+Proof. vm_compute. reflexivity. Qed.
